@@ -1791,8 +1791,15 @@ func genC18Iterators(c *Ctx) {
 		al := []byte("abcd")[:2+c.rng.Intn(3)]
 		t := trie.New()
 		var adds []string
+		var stem []byte
+		if i%4 == 3 { // long members: a shared stem of 14..140 bytes with short, branching tails (depths past any preallocated stack)
+			stem = c.bytesFrom(al, []int{14, 15, 16, 17, 30, 31, 32, 33, 63, 64, 65, 100, 140}[c.rng.Intn(13)])
+		}
 		for k := 0; k < 1+c.rng.Intn(12); k++ {
 			s := c.bytesFrom(al, 1+c.rng.Intn(5))
+			if stem != nil && k%3 != 2 {
+				s = append(append([]byte(nil), stem[:len(stem)-c.rng.Intn(3)]...), s...)
+			}
 			t.Add(s)
 			adds = append(adds, hx(s))
 		}
